@@ -479,7 +479,7 @@ func entryJobs(thorough, lite bool) []job {
 			add("CORE<=4", core4, "", pr, 3)
 		}
 	}
-	for _, pr := range []profile{profP1, profP3, profP4} {
+	for _, pr := range []profile{profP34, profP1, profP3, profP4} {
 		add("CORE<=3", core3, "", pr, 4)
 	}
 	for _, o := range []optSet{"E", "2", "G", "B", "i", "n", "m", "s", "R2", "RE"} {
